@@ -37,7 +37,12 @@ pub fn run() {
             let deadline = Instant::now() + Duration::from_secs(secs);
             let mut total_viol = 0usize;
             let mut reports = Vec::new();
-            for mut space in props::spaces(&prop, thorough, deadline, threads) {
+            let all_spaces = props::spaces(&prop, thorough, deadline, threads);
+            for mut space in all_spaces {
+                // each space owns its deadline; a later space starts when the earlier one is done
+                if Instant::now() > space.deadline {
+                    space.deadline = Instant::now() + Duration::from_secs(30);
+                }
                 if let Some(d) = arg(&args, "--depth").and_then(|s| s.parse().ok()) {
                     space.depth = d;
                 }
